@@ -266,4 +266,111 @@ theorem lemarechal_pos (cfg : Cfg α) (φ : Oracle α) (s0 : Eval α) (hs0 : 0 <
         (fun _ => ite_pos (fun _ => ih _ _ _ _ (le_of_lt ht) hR ht1) (fun _ => ht1)))
       (fun _ => ite_pos (fun _ => ih _ _ _ _ hL (le_of_lt ht) ht2) (fun _ => ht2))
 
+/-! ### Fletcher -/
+
+theorem absv_eq_abs (x : α) : absv x = |x| := by
+  unfold absv; split
+  · rw [abs_of_neg ‹_›]
+  · rw [abs_of_nonneg (not_lt.mp ‹_›)]
+
+/-- Armijo and strong Wolfe (generated predicates) on the returned state and step -/
+def FlQ (cfg : Cfg α) (s0 : Eval α) (r : Res α) : Prop :=
+  hasArmijo s0.f s0.g r.ctx.cur.f r.t cfg.c1 = true ∧ hasStrongWolfe s0.g r.ctx.cur.g cfg.c2 = true
+
+theorem zoom_spec (cfg : Cfg α) (φ : Oracle α) (s0 : Eval α) : ∀ (n : Nat) (lo hi : Step α) (ctx : Ctx α) (t : α),
+    Post φ (FlQ cfg s0) ctx t n (zoom cfg φ s0 n lo hi ctx) := by
+  intro n
+  induction n with
+  | zero => intro lo hi ctx t; exact post_fail (by simp)
+  | succ n ih =>
+    intro lo hi ctx t
+    simp only [zoom]
+    refine ite_post (fun _ => ite_post (fun _ => ite_post (fun _ => post_step (ih _ _ _ _))
+      (fun hA => ite_post (fun hW => post_step (post_here ⟨?_, hW⟩)) (fun _ => post_step (ih _ _ _ _))))
+      (fun _ => post_fail (by simp))) (fun _ => post_fail (by simp))
+    simpa using (not_or.mp hA).1
+
+theorem fletcher_spec (cfg : Cfg α) (φ : Oracle α) (s0 : Eval α) :
+    ∀ (n : Nat) (prev curr : Step α) (t : α) (ctx : Ctx α),
+    Post φ (FlQ cfg s0) ctx t (n + cfg.maxIter) (fletcher cfg φ s0 n prev curr t ctx) := by
+  intro n
+  induction n with
+  | zero => intro prev curr t ctx; exact post_fail (by simp)
+  | succ n ih =>
+    intro prev curr t ctx
+    simp only [fletcher]
+    refine ite_post (fun _ => post_mono (zoom_spec cfg φ s0 _ _ _ _ _) (by omega))
+      (fun hA => ite_post (fun hW => post_here ⟨?_, hW⟩)
+        (fun _ => ite_post (fun _ => post_mono (zoom_spec cfg φ s0 _ _ _ _ _) (by omega))
+          (fun _ => ite_post (fun _ => post_mono (post_step (ih _ _ _ _)) (by omega)) (fun _ => post_fail (by simp)))))
+    simpa using (not_or.mp hA).1
+
+theorem zoom_bounds_pos (cfg : Cfg α) (lo hi : Step α) (htau2 : 0 < cfg.tau2) (hc2 : 0 < cfg.c2) (htau3 : 0 ≤ cfg.tau3)
+    (htau3' : cfg.tau3 < 1) (heps : 0 ≤ cfg.eps0) (hlo : 0 ≤ lo.t) (hhi : 0 ≤ hi.t)
+    (hw : absv (lo.t - hi.t) > cfg.eps0) (v : α) :
+    0 < clamp v (cmin lo.t hi.t + cmin cfg.tau2 cfg.c2 * absv (hi.t - lo.t))
+      (cmax lo.t hi.t - cfg.tau3 * absv (hi.t - lo.t)) := by
+  rw [absv_eq_abs] at hw
+  rw [cmin_eq_min, cmin_eq_min, cmax_eq_max, absv_eq_abs]
+  have hmu : 0 < min cfg.tau2 cfg.c2 := lt_min htau2 hc2
+  have hd : 0 < |hi.t - lo.t| := by rw [abs_sub_comm]; exact lt_of_le_of_lt heps hw
+  apply clamp_pos
+  · have h1 : 0 ≤ min lo.t hi.t := le_min hlo hhi
+    have h2 := mul_pos hmu hd
+    linarith
+  · rcases le_total lo.t hi.t with h | h
+    · rw [max_eq_right h, abs_of_nonneg (by linarith)]
+      rw [abs_of_nonneg (by linarith)] at hd
+      have h1 : 0 < (1 - cfg.tau3) * (hi.t - lo.t) := mul_pos (by linarith) hd
+      have h2 : 0 ≤ (1 - cfg.tau3) * lo.t := mul_nonneg (by linarith) hlo
+      nlinarith
+    · rw [max_eq_left h, abs_of_nonpos (by linarith)]
+      rw [abs_of_nonpos (by linarith)] at hd
+      have h1 : 0 < (1 - cfg.tau3) * (-(hi.t - lo.t)) := mul_pos (by linarith) hd
+      have h2 : 0 ≤ (1 - cfg.tau3) * hi.t := mul_nonneg (by linarith) hhi
+      nlinarith
+
+theorem zoom_pos (cfg : Cfg α) (φ : Oracle α) (s0 : Eval α) (htau2 : 0 < cfg.tau2) (hc2 : 0 < cfg.c2)
+    (htau3 : 0 ≤ cfg.tau3) (htau3' : cfg.tau3 < 1) (heps : 0 ≤ cfg.eps0) :
+    ∀ (n : Nat) (lo hi : Step α) (ctx : Ctx α), 0 ≤ lo.t → 0 ≤ hi.t →
+      (zoom cfg φ s0 n lo hi ctx).ok = true → 0 < (zoom cfg φ s0 n lo hi ctx).t := by
+  intro n
+  induction n with
+  | zero => intro lo hi ctx _ _ h; simp [zoom] at h
+  | succ n ih =>
+    intro lo hi ctx hlo hhi
+    simp only [zoom]
+    refine ite_post (P := fun r : Res α => r.ok = true → 0 < r.t) (fun hw => ?_) (fun _ h => by simp at h)
+    have hpos := zoom_bounds_pos cfg lo hi htau2 hc2 htau3 htau3' heps hlo hhi hw (cfg.interp lo hi)
+    refine ite_post (P := fun r : Res α => r.ok = true → 0 < r.t)
+      (fun _ => ite_post (P := fun r : Res α => r.ok = true → 0 < r.t) (fun _ => ih _ _ _ hlo (le_of_lt hpos))
+        (fun _ => ite_post (P := fun r : Res α => r.ok = true → 0 < r.t) (fun _ _ => hpos)
+          (fun _ => ih _ _ _ (le_of_lt hpos) ?_)))
+      (fun _ h => by simp at h)
+    exact ite_post (P := fun s : Step α => 0 ≤ s.t) (fun _ => hlo) (fun _ => hhi)
+
+theorem fletcher_pos (cfg : Cfg α) (φ : Oracle α) (s0 : Eval α) (htau1 : 0 < cfg.tau1) (htau2 : 0 < cfg.tau2)
+    (hc2 : 0 < cfg.c2) (htau3 : 0 ≤ cfg.tau3) (htau3' : cfg.tau3 < 1) (heps : 0 ≤ cfg.eps0) :
+    ∀ (n : Nat) (prev curr : Step α) (t : α) (ctx : Ctx α), 0 ≤ prev.t → prev.t < curr.t → curr.t = t →
+      (fletcher cfg φ s0 n prev curr t ctx).ok = true → 0 < (fletcher cfg φ s0 n prev curr t ctx).t := by
+  intro n
+  induction n with
+  | zero => intro prev curr t ctx _ _ _ h; simp [fletcher] at h
+  | succ n ih =>
+    intro prev curr t ctx hp hpc hct
+    have hc : 0 < curr.t := lt_of_le_of_lt hp hpc
+    have hgt : curr.t < clamp (cfg.interp prev curr) (curr.t + 2 * (curr.t - prev.t))
+        (curr.t + cfg.tau1 * (curr.t - prev.t)) := by
+      apply clamp_gt
+      · linarith
+      · have := mul_pos htau1 (sub_pos.mpr hpc); linarith
+    simp only [fletcher]
+    exact ite_post (P := fun r : Res α => r.ok = true → 0 < r.t)
+      (fun _ => zoom_pos cfg φ s0 htau2 hc2 htau3 htau3' heps _ _ _ _ hp (le_of_lt hc))
+      (fun _ => ite_post (P := fun r : Res α => r.ok = true → 0 < r.t) (fun _ _ => hct ▸ hc)
+        (fun _ => ite_post (P := fun r : Res α => r.ok = true → 0 < r.t)
+          (fun _ => zoom_pos cfg φ s0 htau2 hc2 htau3 htau3' heps _ _ _ _ (le_of_lt hc) hp)
+          (fun _ => ite_post (P := fun r : Res α => r.ok = true → 0 < r.t)
+            (fun _ => ih _ _ _ _ (le_of_lt hc) hgt rfl) (fun _ h => by simp at h))))
+
 end NanoVerif.LSearch
